@@ -893,6 +893,25 @@ func Lock(m *sync.Mutex) {
 	}
 }
 
+// TryLock replaces (*sync.Mutex).TryLock: a yield point, then one attempt.
+//
+//go:norace
+func TryLock(m *sync.Mutex) bool {
+	s := inTask()
+	if s == nil {
+		return m.TryLock()
+	}
+	p := unsafe.Pointer(m)
+	s.yieldPoint(-1)
+	t := s.curTask()
+	if s.findLock(p) < 0 && m.TryLock() {
+		s.addLock(p, true)
+		s.ev(EvLock, int64(t.ID), 0)
+		return true
+	}
+	return false
+}
+
 // Unlock replaces (*sync.Mutex).Unlock.
 //
 //go:norace
